@@ -114,16 +114,17 @@ template <class C> void Exec<C>::exec_parse(int i, const Op& op, OpOut& o) {
         event("op %d parse u%d \"%s\" entry=%d mgr=%d win=%d place=%d share=%d", i, d, hexesc(op.text).c_str(), entry, op.mgr, (int)(afterLast - first), op.placement, op.c);
         typename A::State st; memset(&st, 0x5a, sizeof st); st.uri = sl.u;
         const C* errPos = (const C*)(uintptr_t)0x1111;
+        const C** epp = (op.opt & 1) ? nullptr : &errPos;   // the error position out-parameter is optional
         volatile int rc = -999;
         Uri* u = sl.u;
         bool ok = call(i, d, op.mgr, fp, [&] {
             switch (entry) {
             case 0: rc = A::ParseUriEx(&st, first, afterLast); break;
             case 1: rc = A::ParseUri(&st, first); break;
-            case 2: rc = A::ParseSingleUri(u, first, &errPos); break;
-            case 3: rc = A::ParseSingleUriEx(u, first, afterLast, &errPos); break;
-            case 4: rc = A::ParseSingleUriEx(u, first, nullptr, &errPos); break;
-            default: rc = A::ParseSingleUriExMm(u, first, afterLast, &errPos, m.table); break;
+            case 2: rc = A::ParseSingleUri(u, first, epp); break;
+            case 3: rc = A::ParseSingleUriEx(u, first, afterLast, epp); break;
+            case 4: rc = A::ParseSingleUriEx(u, first, nullptr, epp); break;
+            default: rc = A::ParseSingleUriExMm(u, first, afterLast, epp, m.table); break;
             }
         });
         o.reqs = attempt == 0 ? outs_tmp_reqs : o.reqs; o.frees = outs_tmp_frees;
@@ -138,7 +139,7 @@ template <class C> void Exec<C>::exec_parse(int i, const Op& op, OpOut& o) {
         }
         if (rc == URI_SUCCESS) {
             if (outs_tmp_fired) violate(V_WRONG_RC, "parse: an allocation request failed but the call returned success", false);
-            sl.state = S_VALID; sl.mgr = op.mgr; sl.owned = false; sl.texts.clear(); sl.deps.clear(); sl.ever.clear(); sl.texts.insert(tid); sl.ever.insert(tid); sl.producer = i;
+            sl.state = S_VALID; sl.mgr = op.mgr; sl.owned = false; sl.texts.clear(); sl.deps.clear(); sl.ever.clear(); sl.texts.insert(tid); sl.ever.insert(tid); sl.producer = i; sl.path_origin = sl.host_origin = OP_PARSE;
             UriView v = view(u);
             o.digest = v.str();
             // layout: every reported range inside the window (or an empty placeholder)
@@ -163,7 +164,7 @@ template <class C> void Exec<C>::exec_parse(int i, const Op& op, OpOut& o) {
         const C* ep = entry <= 1 ? st.errorPos : errPos;
         o.aux = -1;
         if (rc == URI_ERROR_SYNTAX) {
-            if (ep && ep >= first && ep <= afterLast) o.aux = (int)(ep - first); else o.aux = -2;
+            if (entry >= 2 && !epp) o.aux = -3; else if (ep && ep >= first && ep <= afterLast) o.aux = (int)(ep - first); else o.aux = -2;
         }
         o.digest = "error " + std::to_string(rc) + " at " + std::to_string(o.aux);
         event("op %d parse -> rc=%d errpos=%d fired=%d", i, (int)rc, o.aux, outs_tmp_fired);
@@ -229,6 +230,7 @@ template <class C> void Exec<C>::exec_resolve(int i, const Op& op, OpOut& o, boo
         if (rc == URI_SUCCESS) {
             if (outs_tmp_fired) violate(V_WRONG_RC, "an allocation request failed but the call returned success", false);
             sl.state = S_VALID; sl.mgr = op.mgr; sl.owned = false; sl.texts.clear(); sl.deps.clear(); sl.ever.clear(); sl.producer = i;
+            sl.path_origin = sl.host_origin = op.kind;
             inherit(sl, us[r], r); inherit(sl, us[b], b);
             o.digest = view(du).str();
             if (du->owner) violate(V_RESULT_DIFFERS, "result of resolve/relativize claims ownership", false);
@@ -302,6 +304,8 @@ template <class C> void Exec<C>::exec_inplace(int i, const Op& op, OpOut& o, boo
         if (normalize && mask == 0 && snapshot(u) != before_raw) violate(V_OWNER_CHANGED, "normalization with mask 0 changed the URI", false);
         o.digest = after.str();
         sl.producer = i;
+        if (normalize && (mask & URI_NORMALIZE_PATH)) sl.path_origin = OP_NORMALIZE;
+        if (normalize && (mask & URI_NORMALIZE_HOST)) sl.host_origin = OP_NORMALIZE;
         event("op %d -> ok %s", i, o.digest.c_str());
         return;
     }
@@ -359,13 +363,7 @@ template <class C> void Exec<C>::exec_misc(int i, const Op& op, OpOut& o) {
     int mode = op.kind == OP_FILENAME ? 1 + (op.opt & 1) : ((op.opt & 3) == 3 ? 3 : 0);
     const C* src = put_str(in, A_TEXT);
     size_t n = in.size();
-    auto out_buf = [&](size_t chars) -> C* {
-        arena_alloc(A_OBJ, 32, sizeof(C), perm(0, RS_REDZONE));
-        C* b = (C*)arena_alloc(A_OBJ, chars * sizeof(C), sizeof(C), P_RW);
-        arena_alloc(A_OBJ, 64, 1, perm(0, RS_REDZONE));
-        for (size_t k = 0; k < chars; k++) b[k] = (C)0x7e;
-        return b;
-    };
+    auto out_buf = [&](size_t chars) -> C* { return guarded_buf(chars).buf; };
     auto zlen = [&](const C* b, size_t maxc) { size_t l = 0; while (l < maxc && b[l] != 0) l++; return l; };
     event("op %d %s mode=%d \"%s\"", i, opkind_name(op.kind), mode, hexesc(in).c_str());
     if (mode == 0) {
@@ -502,16 +500,15 @@ template <class C> void Exec<C>::exec_query(int i, const Op& op, OpOut& o) {
                 for (int w = 0; w < (op.cap == CAP_ALL ? 2 : 1) && !g.abort_run; w++) {
                     bool with_written = op.cap == CAP_ALL ? w != 0 : true;
                     int alloc_chars = cap > 0 ? cap : 0;
-                    arena_alloc(A_OBJ, 32, sizeof(C), perm(0, RS_REDZONE));
-                    C* dest = (C*)arena_alloc(A_OBJ, (size_t)alloc_chars * sizeof(C), sizeof(C), P_RW);
-                    arena_alloc(A_OBJ, 64, 1, perm(0, RS_REDZONE));
-                    for (int k = 0; k < alloc_chars; k++) dest[k] = (C)0x7e;
+                    Guarded gb = guarded_buf((size_t)alloc_chars);
+                    C* dest = gb.buf;
                     int* written = nullptr;
                     if (with_written) { written = (int*)arena_alloc(A_OBJ, sizeof(int), 4, P_RW); *written = -777; arena_alloc(A_OBJ, 16, 1, perm(0, RS_REDZONE)); }
                     rc = -999;
                     ok = call(i, -1, -1, FaultPlan(), [&] { rc = entry == 0 ? A::ComposeQuery(dest, head, cap, written) : A::ComposeQueryEx(dest, head, cap, written, sp, nb); });
                     ncalls++;
                     if (!ok) { unprotect(pr); o.aborted = true; o.note = "cap=" + std::to_string(cap); return; }
+                    guards_intact(gb, "uriComposeQuery");
                     if (rc == URI_SUCCESS) {
                         int len = 0; while (len < alloc_chars && dest[len] != 0) len++;
                         if (len >= alloc_chars) { snprintf(buf, sizeof buf, "compose with capacity %d reported success but left no terminator inside the buffer", cap); violate(V_SIZE_CONTRACT, buf, false); }
